@@ -56,7 +56,7 @@ theorem decPartial_constraint_violated (c : Cfg) (parent : Body) (cs : List (Str
     (pv : Value) (k : String) (cv : Nat) (hk : (k, cv) ∈ cs)
     (hv : parentField parent pv k ≠ some cv) :
     decPartial c parent cs items pv = .err .constraintValue := by
-  unfold decPartial
+  unfold decPartial decPartialWith
   have : violated parent pv cs = true := by
     simp only [violated, List.any_eq_true, bne_iff_ne, ne_eq]
     exact ⟨(k, cv), hk, hv⟩
@@ -70,7 +70,7 @@ theorem decPartial_constraints_hold (c : Cfg) (parent : Body) (cs : List (String
     (hp : parent.hasPayload = false) :
     decPartial c parent cs items pv =
       .ok (.obj (pv.fields.filter fun (k, _) => k != "payload" && !(cs.any (·.1 == k)))) := by
-  unfold decPartial
+  unfold decPartial decPartialWith
   have : violated parent pv cs = false := by
     simp only [violated, List.any_eq_false, bne_iff_ne, ne_eq, Decidable.not_not]
     intro x hx; exact h x.1 x.2 hx
